@@ -114,7 +114,14 @@ def context_rule(repo: Repo, rep: Report, rid: str) -> None:
                     n += 1
                     rep.check(ctx is not None and norm(ctx) == f"{fi.self_name}._context", rid, key, "pointer forwards the context it was parsed with",
                               "dereference does not forward the pointer's own context", fi.loc(c))
-                continue  # context-free entry points (reads / read / __call__ / _update)
+                # context-free entry points (reads / read / __call__): fine - unless the function is a helper that readers *with* a context call
+                callers = [g_ for g_ in funcs + tf if g_ is not fi and ("context" in g_.params) and
+                           any(isinstance(c2, ast.Call) and call_name(c2) == fi.name for c2 in ast.walk(g_.node))]
+                if callers and fi.name not in ("__call__", "reads", "read", "dereference") and fi.key != "bitbuffer.py:BitBuffer.read":
+                    n += 1
+                    rep.fail(rid, key, f"{fi.qualname} has no context parameter but is called by {callers[0].qualname}, which has one: the context is dropped on the "
+                                       f"way to {c.func.attr} - an expression-sized array below this point cannot refer to earlier fields", fi.loc(c))
+                continue
             n += 1
             if ctx is None:
                 rep.fail(rid, key, f"{fi.qualname} drops the context when calling {c.func.attr}: an expression-sized array below this point could "
@@ -149,7 +156,18 @@ def eof_rule(repo: Repo, rep: Report, rid: str) -> None:
     d = repo.func("types/base.py", "MetaType._read_array")
     g = CFG(d.node)
     arms = [x for x in g.nodes if x.kind == "if" and "EOF" in norm(x.ast.test)]
-    ok = bool(arms) and any(isinstance(w, ast.While) and "_is_eof" in norm(w.test) and isinstance(w.test, ast.UnaryOp) for s in arms[0].ast.body for w in ast.walk(s))
+    def eof_loop(stmts: list[ast.stmt], depth: int = 1) -> bool:
+        for s_ in stmts:
+            for w in ast.walk(s_):
+                if isinstance(w, ast.While) and "_is_eof" in norm(w.test) and isinstance(w.test, ast.UnaryOp):
+                    return True
+                if depth and isinstance(w, ast.Call):  # the loop may live in a helper of the same class / module the arm calls
+                    callee = d.module.functions.get(f"{d.cls.name}.{call_name(w)}" if d.cls is not None else "") or d.module.functions.get(call_name(w) or "")
+                    if callee is not None and callee is not d and eof_loop(callee.node.body, depth - 1):
+                        return True
+        return False
+
+    ok = bool(arms) and eof_loop(arms[0].ast.body)
     rep.check(ok, rid, f"{d.key}:eof-loop", "default EOF mode loops while not _is_eof(stream)", "the default EOF mode no longer loops on 'not _is_eof(stream)'", d.loc())
     # Packed EOF: whole elements only
     p = repo.func("types/packed.py", "Packed._read_array")
